@@ -15,6 +15,7 @@ import vlib
 LEVEL = "proof"
 COQ_MODULES = ["BH"]
 ASSUMPTIONS = [
+    "theorems about the stored slopes (spline equations, straight-line table => constant slopes) are conditional on GaussSolve's own success flag; that flag is evaluated by the float model on every generated table and a False is reported as a violation",
     "theorems are about the real-number reading of the model; rounding error between the float and real readings is not bounded (the float reading is compared with the C++ bit for bit on the generated tables)",
     "termination of the smoothing repair loop of GetSlopes is not proved: the model loop is fuelled, the check reports any table that needs more than 10^4 passes or whose GetSlopes call does not return within the time limit",
     "the model is hand-written; its tie to CMaterialProp.cpp/fullmatrix.cpp/femmcomplex.cpp is the table correspondence run here (omega = 0 only; the harmonic re-sampling of the curve and LaminatedBH are not modelled)",
@@ -141,9 +142,16 @@ def case_text(t, samples):
     return "\n".join(L) + "\n"
 
 
+def ensure_snap(ctx):
+    """Other checks running concurrently prune old snapshots; re-acquire ours (this also refreshes
+    its time stamp) before every use."""
+    ctx.snap = vlib.snapshot()
+    return ctx.snap
+
+
 def run_impl(ctx, tables, samples):
     """samples: dict id -> list of floats (or None).  Returns (rc, dict id -> result, stderr)."""
-    exe = vlib.build_harness(ctx.snap, "h_bh")
+    exe = vlib.build_harness(ensure_snap(ctx), "h_bh")
     txt = "".join(case_text(t, (samples or {}).get(t["id"], [])) for t in tables)
     rc, out, err = vlib.sh([exe, str(TIME_LIMIT)], inp=txt, timeout=60 + TIME_LIMIT * 4 + len(tables))
     res, cur = {}, None
@@ -496,6 +504,9 @@ def evaluate(ctx, tables, with_model=True):
             stats["passes"][p] = stats["passes"].get(p, 0) + 1
             if m[0] > MAXPASSES or not m[2]:
                 fails.append(dict(what="GetSlopes needs more than %d smoothing passes for a monotone table" % MAXPASSES, table=t))
+            if not m[1]:
+                # the theorems about the slopes are conditional on GaussSolve's own success flag
+                fails.append(dict(what="GaussSolve reports a singular spline system for a monotone table (return value ignored by GetSlopes)", table=t))
             if msg:
                 dis.append(dict(what="BH correspondence (%s table, %d points): %s" % (t["kind"], len(t["B"]), msg), table=t))
     return fails, dis, stats
@@ -566,5 +577,177 @@ def search(ctx, broken):
 
 
 # ------------------------------------------------------ paired solver runs (linear case) ----
+FEM_HEAD = """[Format]      =  4.0
+[Frequency]   =  0
+[Precision]   =  1e-08
+[MinAngle]    =  30
+[Depth]       =  %(depth).17g
+[LengthUnits] =  centimeters
+[ProblemType] =  planar
+[Coordinates] =  cartesian
+[ACSolver]    =  0
+[PrevSoln]    = ""
+[PrevType]    =  0
+[Comment]     =  "C19 paired run"
+[PointProps]  =  0
+[BdryProps]   = 1
+  <BeginBdry>
+    <BdryName> = "zero"
+    <BdryType> = 0
+    <A_0> = 0
+    <A_1> = 0
+    <A_2> = 0
+    <Phi> = 0
+    <c0> = 0
+    <c0i> = 0
+    <c1> = 0
+    <c1i> = 0
+    <Mu_ssd> = 0
+    <Sigma_ssd> = 0
+    <innerangle> = 0
+    <outerangle> = 0
+  <EndBdry>
+[BlockProps]  = 3
+"""
+
+
+def fem_block(name, mu, J, bh=(), lamfill=1.0):
+    L = ["  <BeginBlock>", '    <BlockName> = "%s"' % name, "    <Mu_x> = %.17g" % mu, "    <Mu_y> = %.17g" % mu,
+         "    <H_c> = 0", "    <H_cAngle> = 0", "    <J_re> = %.17g" % J, "    <J_im> = 0", "    <Sigma> = 0",
+         "    <d_lam> = 0", "    <Phi_h> = 0", "    <Phi_hx> = 0", "    <Phi_hy> = 0", "    <LamType> = 0",
+         "    <LamFill> = %.17g" % lamfill, "    <NStrands> = 0", "    <WireD> = 0", "    <BHPoints> = %d" % len(bh)]
+    for b, h in bh:
+        L.append("      %.17g\t%.17g" % (b, h))
+    L.append("  <EndBlock>")
+    return "\n".join(L) + "\n"
+
+
+def fem_text(g, mu, bh):
+    """Outer air box with A=0, an iron rectangle (linear mu, or the B-H table bh), a coil rectangle."""
+    pts = []
+    segs = []
+
+    def rect(x0, y0, x1, y1, bdry):
+        k = len(pts)
+        pts.extend([(x0, y0), (x1, y0), (x1, y1), (x0, y1)])
+        for a in range(4):
+            segs.append((k + a, k + (a + 1) % 4, bdry))
+    rect(-g["box"], -g["box"], g["box"], g["box"], 1)
+    rect(*g["iron"], 0)
+    rect(*g["coil"], 0)
+    t = FEM_HEAD % dict(depth=g["depth"])
+    t += fem_block("air", 1, 0) + fem_block("coil", 1, g["J"]) + fem_block("iron", mu, 0, bh)
+    t += "[CircuitProps]  = 0\n[NumPoints] = %d\n" % len(pts)
+    t += "".join("%.17g\t%.17g\t0\t0\n" % p for p in pts)
+    t += "[NumSegments] = %d\n" % len(segs)
+    t += "".join("%d\t%d\t%s\t%d\t0\t0\n" % (a, b, g["mesh"] if bd == 0 else "-1", bd) for a, b, bd in segs)
+    t += "[NumArcSegments] = 0\n[NumHoles] = 0\n[NumBlockLabels] = 3\n"
+    ix, iy = (g["iron"][0] + g["iron"][2]) / 2, (g["iron"][1] + g["iron"][3]) / 2
+    cx, cy = (g["coil"][0] + g["coil"][2]) / 2, (g["coil"][1] + g["coil"][3]) / 2
+    t += "%.17g\t%.17g\t1\t-1\t0\t0\t0\t1\t0\n" % (0.0, g["box"] - 0.3)
+    t += "%.17g\t%.17g\t2\t-1\t0\t0\t0\t1\t0\n" % (cx, cy)
+    t += "%.17g\t%.17g\t3\t%s\t0\t0\t0\t1\t0\n" % (ix, iy, g["mesh"])
+    return t
+
+
+def read_ans(path):
+    L = open(path, errors="replace").read().replace("\r", "").split("\n")
+    k = L.index("[Solution]")
+    nn = int(L[k + 1])
+    nodes = np.array([[float(v) for v in L[k + 2 + i].split()[:3]] for i in range(nn)])
+    ne = int(L[k + 2 + nn])
+    els = np.array([[int(v) for v in L[k + 3 + nn + i].split()[:4]] for i in range(ne)])
+    return nodes, els
+
+
+def element_B(nodes, els):
+    """P1 flux density per element (planar, lengths in cm -> T) and element areas in m^2."""
+    x, y, A = nodes[:, 0] * 0.01, nodes[:, 1] * 0.01, nodes[:, 2]
+    n0, n1, n2 = els[:, 0], els[:, 1], els[:, 2]
+    b = np.stack([y[n1] - y[n2], y[n2] - y[n0], y[n0] - y[n1]], 1)
+    c = np.stack([x[n2] - x[n1], x[n0] - x[n2], x[n1] - x[n0]], 1)
+    da = (b[:, 0] * c[:, 1] - b[:, 1] * c[:, 0])       # 2*area
+    Av = np.stack([A[n0], A[n1], A[n2]], 1)
+    dAdx = (Av * b).sum(1) / da
+    dAdy = (Av * c).sum(1) / da
+    return np.hypot(dAdy, dAdx), np.abs(da) / 2
+
+
+def run_solver(ctx, d, name, text):
+    open(os.path.join(d, name + ".fem"), "w").write(text)
+    ensure_snap(ctx)
+    rc, out, err = vlib.sh([ctx.snap.tool("fmesher"), name + ".fem"], cwd=d, timeout=120)
+    if rc != 0:
+        return None, "fmesher failed (rc=%d)" % rc, 0
+    rc, out, err = vlib.sh([ctx.snap.tool("fsolver"), name], cwd=d, timeout=180)
+    its = out.count("Newton Iteration")
+    if rc == 124:
+        return None, "fsolver did not terminate within 180 s (%d Newton iterations printed)" % its, its
+    if rc != 0 or not os.path.exists(os.path.join(d, name + ".ans")):
+        return None, "fsolver failed (rc=%d): %s" % (rc, (out + err)[-300:]), its
+    return read_ans(os.path.join(d, name + ".ans")), None, its
+
+
 def solver_pairs(ctx):
-    return dict(runs=0)
+    """Property, end to end: a magnetostatic problem whose B-H table is a straight line through the
+    origin gives the same solution and energy as the linear material of that permeability, and the
+    Newton iteration terminates.  Runs fmesher+fsolver from the snapshot on generated problems."""
+    rng = vlib.Rng(ctx.seed + 77)
+    npairs = 2 if ctx.quick() else 8
+    st = dict(runs=0, pairs=[], max_rel_dA=0.0, max_rel_dW=0.0, newton_iterations=[])
+    for k in range(npairs):
+        mu = rng.choice([50.0, 1000.0, 4000.0, float(rng.randint(2, 20000))])
+        n = rng.randint(2, 12)
+        B = uneven_knots(rng, n, rng.choice([0.5, 2.0, 4.0]), rng.choice([1.0, 20.0]))
+        kk = 1.0 / (mu * MUO)
+        bh = [(b, kk * b) for b in B]
+        g = dict(box=6.0, iron=(-2.0 - rng.random(), -3.0, 1.0, 2.0 + rng.random()),
+                 coil=(2.0, -2.0, 4.0 - rng.random(), 2.0), J=rng.choice([0.5, 2.0, 10.0, -3.0]),
+                 depth=rng.choice([1.0, 2.5]), mesh=rng.choice(["0.5", "0.3", "-1"]))
+        d = os.path.join(ctx.work, "pair%d" % k)
+        os.makedirs(d, exist_ok=True)
+        replay = dict(geometry=g, mu=mu, table=dict(kind="line", B=[b for b, _ in bh], H=[h for _, h in bh], lamtype=0, lamfill=1.0))
+        lin, msg, _ = run_solver(ctx, d, "lin", fem_text(g, mu, ()))
+        st["runs"] += 1
+        if msg:
+            ctx.fail("paired run, linear material: " + msg, **replay)
+            continue
+        tab, msg, its = run_solver(ctx, d, "tab", fem_text(g, mu, bh))
+        st["runs"] += 1
+        st["newton_iterations"].append(its)
+        if msg:
+            ctx.fail("paired run, straight-line B-H table: " + msg, **replay)
+            continue
+        (n1, e1), (n2, e2) = lin, tab
+        if n1.shape != n2.shape or e1.shape != e2.shape or not np.array_equal(n1[:, :2], n2[:, :2]):
+            ctx.fail("paired run: the two problems were meshed differently", **replay)
+            continue
+        amax = np.abs(n1[:, 2]).max()
+        dA = float(np.abs(n1[:, 2] - n2[:, 2]).max() / amax)
+        st["max_rel_dA"] = max(st["max_rel_dA"], dA)
+        if not dA <= 1e-5:
+            ctx.fail("straight-line B-H table and linear material of the same permeability give different solutions "
+                     "(max |dA|/max|A| = %.3g)" % dA, **replay)
+            continue
+        # energy of the iron block: linear law on the linear solution, the implementation's
+        # GetEnergy (through the harness, after GetSlopes) on the table solution
+        iron = e1[:, 3] == 2
+        B1, ar = element_B(n1, e1)
+        B2, _ = element_B(n2, e2)
+        vol = ar[iron] * g["depth"] * 0.01
+        W1 = float((vol * B1[iron] ** 2 / (2 * mu * MUO)).sum())
+        t = dict(replay["table"], id=0)
+        rc, res, err = run_impl(ctx, [t], {0: [float(b) for b in B2[iron]]})
+        if 0 not in res or not res[0].get("done"):
+            ctx.fail("harness failed on the table of a paired run", **replay)
+            continue
+        W2 = float((vol * np.array([v[4] for v in res[0]["s"]])).sum())
+        dW = abs(W1 - W2) / abs(W1)
+        st["max_rel_dW"] = max(st["max_rel_dW"], dW)
+        if not dW <= 1e-5:
+            ctx.fail("stored energy in the iron differs between the straight-line table (%r J) and the linear "
+                     "material (%r J)" % (W2, W1), **replay)
+        if its > 25:
+            ctx.fail("Newton iteration needed %d passes on a straight-line table" % its, **replay)
+        st["pairs"].append(dict(mu=mu, points=n, nodes=int(n1.shape[0]), newton=its, rel_dA=dA, rel_dW=dW))
+    return st
